@@ -36,8 +36,28 @@ def configs(tier):
     return cf
 
 
+class CompileTimeout(Exception):
+    """the compilation of one (small) program did not finish within the budget: it does not return TEAL"""
+
+
+_BUDGET_S = 300
+
+
+def _on_alarm(_sig, _frm):
+    raise CompileTimeout("no result after %d s" % _BUDGET_S)
+
+
 def classify(prog, cfg):
-    st, r = drive.compile_recipe(prog, cfg)
+    import signal
+    old = signal.signal(signal.SIGALRM, _on_alarm)
+    signal.alarm(_BUDGET_S)
+    try:
+        st, r = drive.compile_recipe(prog, cfg)
+    except CompileTimeout as e:
+        st, r = "crash", e
+    finally:
+        signal.alarm(0)
+        signal.signal(signal.SIGALRM, old)
     if st == "ok":
         return "TEAL", None
     if st == "pterr":
@@ -62,7 +82,7 @@ def _check(prog, cfgs, out, size, driver, must_accept, minver=2, extra=None):
         oc[cls] = oc.get(cls, 0) + 1
         feats = dict(extra or {}, driver=driver, outcome=cls)
         rec_prog = prog
-        if driver in ("deep-expr", "deep-if"):
+        if driver in ("deep-expr", "deep-if", "deep-then"):
             # a term nested hundreds of levels deep cannot be serialised: the record names its generator
             rec_prog = dict(prog, main={"__gen__": driver, "n": size})
         if cls.startswith("CRASH:"):
@@ -111,6 +131,13 @@ def long_programs(tier):
         for _ in range(d):
             t = ["If", ["Int", 1], t, ["TickS", 2]]
         out.append((d, {"mode": "A", "vars": {}, "subs": {}, "main": ["Seq", t, ["Int", 1]]}, "deep-if", True, 2,
+                    {"n": d, "n_over_900": False, "depth_over_150": d > 150}))
+    for d in ([10, 40, 150] if tier == "quick" else [10, 20, 30, 40, 80, 150, 300]):
+        # conditionals WITHOUT an else arm nested in each other's then arm
+        t = ["TickS", 1]
+        for _ in range(d):
+            t = ["If", ["Int", 1], t]
+        out.append((d, {"mode": "A", "vars": {}, "subs": {}, "main": ["Seq", t, ["Int", 1]]}, "deep-then", True, 2,
                     {"n": d, "n_over_900": False, "depth_over_150": d > 150}))
     for n in ([10, 100, 400, 600, 1100] if tier == "quick" else [10, 50, 100, 200, 400, 450, 500, 600, 800, 950, 1100, 2000]):
         # long operand chains (x ^ 1 ^ 1 ... as a user's reduce() over a list builds them): expression depth,
@@ -272,6 +299,15 @@ def run(tier):
     _CFGS = [rb.Cfg(6, "A"), rb.Cfg(10, "A"), rb.Cfg(10, "A", scratch_slots=True, frame_pointers=False)]
     for sh in common.pmap_shards(_worker, longs, shard_size=1, order_seed=rep.seed,
                                  recursion_limit=sys.getrecursionlimit()):
+        rep.merge(sh)
+    # call graphs: every graph over k routines x definition orders (which routine is compiled from where)
+    from ..recipe import gen_sub
+    graphs = [(3, gen_sub.call_graph(*a), "call-graph", True, 4, {}) for k in (2, 3) for a in gen_sub.call_graphs(k)]
+    if tier == "thorough":
+        graphs += [(4, gen_sub.call_graph(*a), "call-graph", True, 4, {}) for a in gen_sub.call_graphs(4, "two")]
+    rep.bounds["call_graphs"] = len(graphs)
+    _CFGS = [rb.Cfg(4, "A"), rb.Cfg(6, "A"), rb.Cfg(8, "A"), rb.Cfg(10, "A", scratch_slots=True, frame_pointers=False)]
+    for sh in common.pmap_shards(_worker, graphs, order_seed=rep.seed, recursion_limit=sys.getrecursionlimit()):
         rep.merge(sh)
     # a valid program must also be accepted when the OptimizeOptions object it is compiled with was used before
     # (other program, other target version)
